@@ -88,6 +88,13 @@ def find_closest(value, value_list):
     return best_el, best_diff
 
 
+def open_gzipped_text_output(file_name):
+    # mtime=0: the gzip header carries no time stamp, the same content always gives the same file
+    import gzip
+    import io
+    return io.TextIOWrapper(gzip.GzipFile(file_name, "wb", mtime=0))
+
+
 def rreplace(s, old, new):
     return new.join(s.rsplit(old, 1))
 
